@@ -196,6 +196,9 @@ func (r *Raft) onAppendEntriesRequest(req *appendReq, c *conn) (rpcResult, error
 					println(r, "log.Commit", r.lastLogIndex)
 				}
 				r.storage.commitLog(r.lastLogIndex)
+				if verif {
+					verifPoint("append.flushed", r.snaps.dir)
+				}
 				if r.canCommit(req, index, term) {
 					r.setCommitIndex(index)
 					r.applyCommitted(nil)
@@ -232,6 +235,9 @@ func (r *Raft) onAppendEntriesRequest(req *appendReq, c *conn) (rpcResult, error
 				println(r, "log.removeGTE", ne.index)
 			}
 			r.storage.removeGTE(ne.index, prevTerm)
+			if verif {
+				verifPoint("append.truncated", r.snaps.dir)
+			}
 			if ne.index <= r.configs.Latest.Index {
 				r.revertConfig()
 			}
@@ -242,6 +248,9 @@ func (r *Raft) onAppendEntriesRequest(req *appendReq, c *conn) (rpcResult, error
 		}
 		r.storage.appendEntry(ne)
 		syncLog = true
+		if verif {
+			verifPoint("append.appended", r.snaps.dir)
+		}
 		if ne.typ == entryConfig {
 			var newConfig Config
 			if err := newConfig.decode(ne); err != nil {
@@ -303,6 +312,9 @@ func (r *Raft) onInstallSnapRequest(req *installSnapReq, c *conn) (rpcResult, er
 	if doneErr != nil {
 		return unexpectedErr, opError(doneErr, "snapshotSink.done")
 	}
+	if verif {
+		verifPoint("install.stored", r.snaps.dir)
+	}
 
 	discardLog := true
 	if r.storage.log.Contains(meta.index) {
@@ -322,6 +334,9 @@ func (r *Raft) onInstallSnapRequest(req *installSnapReq, c *conn) (rpcResult, er
 	if discardLog {
 		if err = r.storage.clearLog(); err != nil {
 			return unexpectedErr, err
+		}
+		if verif {
+			verifPoint("install.cleared", r.snaps.dir)
 		}
 
 		// todo: dont wait for restoreFSM to complete
